@@ -128,6 +128,24 @@ def gen(rng, tier):
     for y in range(1970, 10000):
         for m in range(1, 13):
             cases.append("day %d %d %d 1" % (days_from_civil(y, m, 1), y, m))
+    # 2b. year ends and leap-day neighbourhoods of EVERY year, and short exhaustive walks around every multiple of the
+    #     4-, 100- and 400-year cycle lengths counted from the epoch (where a cycle-skipping fast path would go wrong)
+    for y in range(1970, 10000):
+        cases.append(day_case(days_from_civil(y, 12, 31)))
+        cases.append(day_case(days_from_civil(y, 3, 1)))
+        if y % 4 == 0:
+            cases.append(day_case(days_from_civil(y, 2, 28)))
+            cases.append(day_case(days_from_civil(y, 2, 29) if is_leap(y) else days_from_civil(y, 3, 1) - 1))
+    for (cyc, win) in ((146097, 4), (36524, 3), (36525, 3), (1461, 2), (365, 0), (366, 0)):
+        k = cyc
+        while k - win <= LAST_DAY:
+            lo = max(0, k - win - 1)
+            if win == 0:
+                cases.append(day_case(min(k, LAST_DAY)))
+                cases.append(day_case(lo))
+            else:
+                cases.append(walk_case(lo, min(2 * win + 2, LAST_DAY + 1 - lo)))
+            k += cyc
     # 3. random instants
     n_rand = 1000000 if thorough else 50000
     for i in range(n_rand):
